@@ -21,14 +21,16 @@ Choices == { <<>>,
              << <<1, <<2, 10>>>> >>,
              << <<1, <<1>>>>, <<2, <<2>>>> >>,
              << <<2, <<2>>>>, <<1, <<1>>>> >>,
-             << <<1, <<3>>>>, <<1, <<3>>>> >> }      \* same file name in two directories
+             << <<1, <<3>>>>, <<1, <<3>>>> >>,       \* same file name in two directories
+             << <<1, <<>>>> >>,                       \* an entry without lines: no finding at all
+             << <<1, <<>>>>, <<2, <<21, 34>>>> >> }   \* ... next to a file that has findings
 
 VARIABLES F, todo, out, total, buf, phase
 vars == <<F, todo, out, total, buf, phase>>
 
 Init == /\ \E g \in [PatSet -> Choices] :
              F = [p \in {q \in PatSet : g[q] # <<>>} |-> g[p]]
-        /\ todo = DOMAIN F /\ out = <<>> /\ total = 0
+        /\ todo = Reported(F) /\ out = <<>> /\ total = 0
         /\ buf = <<<<>>, <<>>, <<>>, <<>>>> /\ phase = "loop"
 
 SevIndex(p) == IF Cat # "vulnerabilities" THEN 4
@@ -54,6 +56,7 @@ Next == (\E p \in PatSet : RenderSection(p)) \/ Finish
 Spec == Init /\ [][Next]_vars /\ WF_vars(Next)
 
 Done == phase = "done"
+IsInitial == phase = "loop" /\ todo = Reported(F) /\ total = 0 /\ buf = <<<<>>, <<>>, <<>>, <<>>>>
 Listed   == Done => C11Holds(F, out)
 Totals   == Done => C12Holds(F, out)
 Terminates == <>Done
@@ -70,7 +73,7 @@ CanonEntries(G, p) ==
 RECURSIVE CanonBuf(_, _, _)
 CanonBuf(G, i, k) ==
     IF i > Len(Pats) THEN <<>>
-    ELSE (IF Pats[i] \in DOMAIN G /\ (IF Cat = "vulnerabilities" THEN SeverityOf(Pats[i]) = Severities[k] ELSE TRUE)
+    ELSE (IF Pats[i] \in Reported(G) /\ (IF Cat = "vulnerabilities" THEN SeverityOf(Pats[i]) = Severities[k] ELSE TRUE)
           THEN CanonEntries(G, Pats[i]) ELSE <<>>) \o CanonBuf(G, i + 1, k)
 RenderCanon(G) ==
     LET n == Len(Flat(G)) IN
@@ -82,12 +85,12 @@ RenderCanon(G) ==
 ReverseSeq(s) == [i \in 1 .. Len(s) |-> s[Len(s) + 1 - i]]
 Reorderings == {[p \in DOMAIN F |-> IF p \in R THEN ReverseSeq(F[p]) ELSE F[p]] : R \in SUBSET DOMAIN F}
 
-Deterministic == (phase = "loop" /\ todo = DOMAIN F) =>
+Deterministic == IsInitial =>
                      \A G \in Reorderings : RenderCanon(G) = RenderCanon(F)
-CanonIsARendering == (phase = "loop" /\ todo = DOMAIN F) =>
+CanonIsARendering == IsInitial =>
                      C11Holds(F, RenderCanon(F)) /\ C12Holds(F, RenderCanon(F))
 
-DumpBehaviour == (phase = "loop" /\ todo = DOMAIN F) =>
+DumpBehaviour == IsInitial =>
     PrintT(<<"REPLAY", ToJson([cat |-> Cat,
                                 findings |-> [p \in DOMAIN F |-> F[p]],
                                 pats |-> [i \in 1 .. Len(Pats) |-> IF Pats[i] \in DOMAIN F THEN F[Pats[i]] ELSE <<>>],
